@@ -1,14 +1,138 @@
 /-
-C03 — cached representations are never stale and are computed once per change.
-(theorems follow; placeholder while the correspondence is being brought up)
+C03 — Cached representations are never stale and are computed once per change.
+
+Model: `DefconModel/Repr.lean` (M-Repr).  Specification side: `Spec/Repr.lean`.  Tables regenerated
+from the defcon source on every run: `Gen/ReprTables.lean`.
+
+Reading guide.  A *world* holds the glyphs of a layer (contours, components with their base-glyph
+registrations), loose contours/components, the groups dict and, per object that has a dispatcher,
+its `_representations`.  Contents are version stamps; a factory is any function `P.f` of the object's
+*view* (`viewOf`: the stamps the factory can read — for a component and for a glyph that includes the
+outline of every base glyph, to any depth) and of the sorted keyword items.  `Inv` says: every cached
+value is `P.f` of the current view (never stale), objects without dispatcher cache nothing, only
+registered names are cached.  `Dom` is the structural domain: component chains shorter than the fuel
+(acyclic), ids and names unique, base-glyph registrations in place.
 -/
-import DefconModel.Repr
+import DefconModel.Lemmas.ReprRun
+import DefconModel.Lemmas.ReprKey
+import DefconModel.Lemmas.ReprGeom
 import DefconModel.Gen.ReprTables
 
 namespace DefconModel.Props.C03
-open DefconModel.Repr
+open DefconModel DefconModel.Repr
 
-/-- placeholder -/
-theorem placeholder : (1 : Nat) = 1 := rfl
+variable {V : Type}
+
+/-! ### cache keys -/
+
+/-- Two requests share a cache entry only if they pass the same keyword items: distinct arguments
+are cached separately (`_makeRepresentationSubKey` is injective on keyword sets). -/
+theorem distinct_arguments_separate (a b : KwArgs) (h : makeSubKey a = makeSubKey b) : a.Perm b :=
+  makeSubKey_injective a b h
+
+/-- The order in which keywords are written does not matter: the same arguments always find the
+same entry. -/
+theorem keyword_order_irrelevant (a b : KwArgs) (hp : a.Perm b) (hn : (a.map Prod.fst).Nodup) :
+    makeSubKey a = makeSubKey b := makeSubKey_perm a b hp hn
+
+/-- Storing a value under one (name, sub-key) changes no other entry of the object's cache. -/
+theorem store_touches_one_entry (c : Cache V) (n n' : String) (sk sk' : SubKey) (v : V)
+    (h : ¬ (n = n' ∧ sk = sk')) : (c.store n sk v).get? n' sk' = c.get? n' sk' := by
+  rw [Cache.get?_store]; simp [h]
+
+example : makeSubKey [("b", 2), ("a", 1)] = makeSubKey [("a", 1), ("b", 2)] := by decide
+example : makeSubKey [("a", 1)] ≠ makeSubKey [("a", 2)] := by decide
+example : makeSubKey [] = none := rfl
+
+/-! ### coverage of the regenerated tables -/
+
+/-- The coverage obligation holds for the tables extracted from the source under test: every
+declared mutator posts a notification that destroys every representation reading the cell it
+rewrites — on the object, on its glyph, and (through ContoursChanged / ComponentsChanged →
+`Component.BaseGlyphDataChanged` → `Glyph.ComponentsChanged` …) on everything that references the
+glyph; the destructive sets are read as they execute (a parenthesised string is a substring test);
+the `addObserver` routes the model walks exist in the source. -/
+theorem coverage_holds : Coverage Gen.ReprTables.tables = true := by decide
+
+/-- the substring semantics matters: a string spec is hit by every infix of it -/
+example : (Destr.str "Contour.PointsChanged").hit "Points" = true := by decide
+example : (Destr.str "Contour.PointsChanged").hit "Contour.Changed" = false := by decide
+example : (Destr.names ["Contour.PointsChanged"]).hit "Points" = false := by decide
+
+/-! ### never stale -/
+
+/-- The full statement: from any world that satisfies the invariant, every sequence of public
+operations whose intermediate states stay in the structural domain ends in a world that satisfies
+it: whatever is requested next is answered with exactly what the factory computes now. -/
+def CacheCoherentFull (P : Params V) (T : Tables) : Prop :=
+  ∀ (w0 : World V) (ops : List Op), Inv P T w0 →
+    (∀ pre, pre <+: ops → Dom (run P T w0 pre)) → Inv P T (run P T w0 ops)
+
+/-- **cache_coherent** (partial: see below).  Under the coverage obligation and the correctness of
+`Contour.move`'s patch, after ANY interleaving of requests (with any names / keyword arguments),
+cache-API calls, registrations, Contour / Component / Glyph / Groups mutators, `move`, base-glyph
+re-assignment, and insertion / removal of contours and components (including re-insertion of removed
+ones) — every cached value of every object equals its factory applied to the object's current view,
+the view of a component or glyph including its base glyphs' outlines to any nesting depth.
+What is missing for `CacheCoherentFull`: the three operations that change which glyph a name denotes
+(`newGlyph`, `delGlyph`, `rename`: a base glyph is added, deleted, renamed) are excluded by `hno`;
+their eviction routes are in the model, in `coverage_holds` (the four switching callbacks) and in the
+correspondence runs, but their preservation proof is not finished. -/
+theorem cache_coherent_partial (P : Params V) (T : Tables) (hcov : Coverage T = true) (hpatch : PatchOK P)
+    (w0 : World V) (ops : List Op) (h0 : Inv P T w0)
+    (hno : ∀ op, op ∈ ops → op.isNameOp = false)
+    (hdom : ∀ pre, pre <+: ops → Dom (run P T w0 pre)) : Inv P T (run P T w0 ops) := by
+  induction ops generalizing w0 with
+  | nil => exact h0
+  | cons op rest ih =>
+    have d0 : Dom w0 := hdom [] (List.nil_prefix)
+    have d1 : Dom (step P T w0 op).1 := hdom [op] (by simp)
+    have i1 := step_inv_local P T hcov hpatch w0 op (hno op (by simp)) h0 d0 d1
+    refine ih (step P T w0 op).1 i1 (fun x hx => hno x (by simp [hx])) ?_
+    intro pre hpre
+    have := hdom (op :: pre) (by simpa using hpre)
+    simpa [run] using this
+
+/-- the world with nothing in it satisfies the invariant (so the theorem applies to every history
+that starts with an empty font) -/
+theorem inv_empty (P : Params V) (T : Tables) : Inv P T ({} : World V) := by
+  refine ⟨?_, ?_, ?_, ?_⟩
+  · intro o nm sk v h; simp [cacheOf, Cache.get?] at h
+  · intro o _ nm sk; simp [cacheOf, Cache.get?]
+  · intro o nm sk v h; simp [cacheOf, Cache.get?] at h
+  · intro r hr; cases hr
+
+/-- a single step, for the tables of the source under test -/
+theorem step_coherent (P : Params V) (hpatch : PatchOK P) (w : World V) (op : Op)
+    (hn : op.isNameOp = false) (hinv : Inv P Gen.ReprTables.tables w) (hdom : Dom w)
+    (hdom' : Dom (step P Gen.ReprTables.tables w op).1) : Inv P Gen.ReprTables.tables (step P Gen.ReprTables.tables w op).1 :=
+  step_inv_local P _ coverage_holds hpatch w op hn hinv hdom hdom'
+
+/-! ### computed once per change -/
+
+/-- **factory_runs_once.**  After a request on an attached object was answered, any number of
+further requests / cache inspections (of any object, name, arguments) later, the same request — the
+same name and the same keyword items in any order — is answered from the cache: the factory is not
+invoked again (`got 0`).  So between two changes the factory runs at most once per (name, kwargs). -/
+theorem factory_runs_once (P : Params V) (T : Tables) (w : World V) (o : Obj) (name : String) (kw kw' : KwArgs)
+    (n : Nat) (hatt : attached w o = true) (hfirst : (step P T w (.get o name kw)).2 = .got n)
+    (qs : List Op) (hq : ∀ q, q ∈ qs → q.isQuery = true) (hk : makeSubKey kw' = makeSubKey kw) :
+    (step P T (run P T (step P T w (.get o name kw)).1 qs) (.get o name kw')).2 = .got 0 := by
+  have e0 : (step P T w (.get o name kw)).1 = (doGet P T w o name kw).1 := rfl
+  rw [e0]
+  obtain ⟨h1, h2, h3, h5, v, hv⟩ := doGet_ok P T w o name kw n hatt hfirst
+  have s0 := doGet_struct P T w o name kw
+  obtain ⟨s1, hv1⟩ := queries_keep P T qs hq (doGet P T w o name kw).1 o name (makeSubKey kw) v hv
+  have s := s0.trans s1
+  show (doGet P T _ o name kw').2 = .got 0
+  apply doGet_hit P T _ o name kw' v
+  · rw [exists_congr s]; exact h1
+  · rw [s.regs]; exact h2
+  · rw [isEmpty_of_makeSubKey_eq hk]; exact h3
+  · rw [attached_congr s]; exact hatt
+  · intro inner hi
+    rw [s.regs]
+    exact h5 inner hi
+  · rw [hk]; exact hv1
 
 end DefconModel.Props.C03
